@@ -181,6 +181,20 @@ theorem slotRunDep_good {π : Type} {sel : Selector π} (hsel : SelOK sel) {thr 
     · rw [h']; exact h
     · rw [h']; exact hroot count s.precond h h2 h3
 
+theorem slotRunReset_good {π : Type} {sel : Selector π} (hsel : SelOK sel) {thr : XF} (hthr : thr.isNaN = false)
+    (itv : Nat) (rf : Option Nat) (zero : π → π) (root : WarmRoot π) (Good : π → Prop)
+    (hroot : ∀ c p, Good p → (root c (warmStart rf zero c p)).err.isNaN = false → (root c (warmStart rf zero c p)).err.lt thr = true
+      → Good (root c (warmStart rf zero c p)).cand) :
+    ∀ (n count : Nat) (s : Slot π), Good s.precond → Good (slotRunReset sel thr itv rf zero root count s n).precond
+  | 0, _, _, h => h
+  | n + 1, count, s, h => by
+    show Good (slotRunReset sel thr itv rf zero root (count + 1) (slotStepReset sel thr itv rf zero count root s) n).precond
+    apply slotRunReset_good hsel hthr itv rf zero root Good hroot n
+    unfold slotStepReset
+    rcases slotStep_spec hsel hthr itv count s (root count (warmStart rf zero count s.precond)) with h' | ⟨h', _, h2, h3⟩
+    · rw [h']; exact h
+    · rw [h']; exact hroot count s.precond h h2 h3
+
 /-! ### the whole state -/
 
 theorem stateStep_good {π : Type} {sel : Selector π} (hsel : SelOK sel) {thr : XF} (hthr : thr.isNaN = false)
